@@ -209,6 +209,8 @@ def _toy_mcmc(r):
         ops.append(dict({"id": "op.y", "type": "ScalerOperator", "parameters": "y", "weight": 1.0, "scaler": 0.7}, **common))
     ts = r.get("tune_scale")
     for op in ops:
+        if not isinstance(op, dict):
+            continue
         if r.get("target_acc"):
             op["target_acceptance_probability"] = r["target_acc"]
         if ts:
@@ -227,8 +229,11 @@ def _toy_mcmc(r):
                      "lo": f["lo"], "hi": f["hi"], "value": f["value"]})
         target = "target"
         for op in ops:
-            if op["type"] == "HMCOperator":
+            if isinstance(op, dict) and op["type"] == "HMCOperator":
                 op["joint"] = "target"
+    if r.get("dup_op") and len(ops) >= 2:
+        # the same operator listed twice (by reference) before another one: legal, doubles its share
+        ops.insert(1, ops[0]["id"])
     mcmc = {"id": "mcmc", "type": "MCMC", "joint": target, "iterations": r["iterations"], "operators": ops,
             "checkpoint": CKPT, "checkpoint_frequency": r["freq"], "every": r.get("every", 0)}
     if r.get("logger"):
